@@ -715,9 +715,9 @@ def apiModel : ApiCase → ApiOut
   | .callTwoStatements => .text "G/fundefined,g7"   -- len(program.body) != 1: general path
   | .callTwoStatementsThis => .text "G/fundefined,g7"
   | .callExprStatement => .text "G/g7"
-  | .runThrowToStringHostThrows => .goPanic   -- catchPanic's inner recover keeps only *exception; a host panic(Value) escapes
-  | .setZeroObject => .goPanic                -- toValue: `case Object: … value.object` is nil, the stash write dereferences it
-  | .setPtrZeroObject => .goPanic
+  | .runThrowToStringHostThrows => .errPlain  -- the inner recover keeps *exception, *Error, ottoError and Value panics inside
+  | .setZeroObject => .text "undefined"       -- toValue: an Object whose inner pointer is nil is undefined
+  | .setPtrZeroObject => .text "undefined"
   | .exportStringObject => .text "O(,30,s:61,31,s:62)"   -- "Object -> map[string]interface{}" of the own enumerable properties
   | .exportNumberObject => .text "O()"
   | .exportFunction => .text "O()"
